@@ -248,6 +248,20 @@ impl Exec {
                     self.next_tag
                 ));
             }
+            "glued" => {
+                // two replies in one frame (a delimiter got lost): the second carries content that belongs to nobody
+                let id = c["id"].as_u64().unwrap();
+                self.answered.push(id);
+                self.next_tag += 1;
+                ev["id"] = json!(id);
+                ev["tag"] = json!(self.next_tag);
+                let other = if id == 1 { 2 } else { id - 1 };
+                self.ctl.push(format!(
+                    "<rpc-reply message-id=\"{id}\" xmlns=\"{BASE_NS}\"><data>T{}</data></rpc-reply><rpc-reply message-id=\"{other}\" xmlns=\"{BASE_NS}\"><data>T{}</data></rpc-reply>{EOM}",
+                    self.next_tag,
+                    900 + other
+                ));
+            }
             "garbage" => {
                 self.next_tag += 1;
                 ev["tag"] = json!(self.next_tag);
@@ -470,6 +484,15 @@ fn random_case(
             }
         } else if faults && k < 94 && !answered.is_empty() {
             Some(json!({"c": "dup", "id": answered[rng.gen_range(0..answered.len())]}))
+        } else if faults && k < 94 && rng.gen_range(0..3) == 0 {
+            let cand: Vec<u64> = sent_ids(ex).into_iter().filter(|i| !answered.contains(i)).collect();
+            if cand.is_empty() {
+                None
+            } else {
+                let i = cand[rng.gen_range(0..cand.len())];
+                answered.push(i);
+                Some(json!({"c": "glued", "id": i}))
+            }
         } else if faults && k < 95 {
             Some(json!({"c": "garbage"}))
         } else if faults && k < 96 {
